@@ -6,7 +6,8 @@ _emit) and rebuild the property files whose cones contain the bridges.  A harmle
 The checkout is restored after every diff (`git apply -R`, then `git checkout -- .` as a safety net) and the generated
 files are brought back to the unmodified source at the end.
 
-Usage: harmless_acceptance.py [suite-or-id ...]      e.g.  harmless_acceptance.py harmless2 h06 k03
+Usage: harmless_acceptance.py [--quick] [suite-or-id ...]      e.g.  harmless_acceptance.py harmless2 h06 k03
+  --quick   build only Base/Bridge*.vo (the bridge proofs themselves) instead of the property files on top of them
 Exit status 0 iff every selected diff is quiet."""
 import glob
 import json
@@ -22,6 +23,8 @@ from kern_acceptance import sh, theorem_at
 
 REPO = gen_kernels.REPO
 TARGETS = ["theories/Props/%s.vo" % c for c in ("C01", "C05", "C09", "C10", "C13", "C16", "C04")]
+QUICK = ["theories/Base/%s.vo" % b for b in ("BridgeKafka", "BridgeRateLimit", "BridgeRefCounter", "BridgeSlice", "BridgeNodes",
+                                              "BridgeEmit")]
 
 
 def build():
@@ -57,6 +60,10 @@ def suites():
 
 
 def main(sel):
+    global TARGETS
+    if "--quick" in sel:
+        sel = [x for x in sel if x != "--quick"]
+        TARGETS = QUICK
     rc, out = sh("git status --porcelain", cwd=REPO)
     if out.strip():
         print("the checkout %s is not clean" % REPO)
